@@ -46,6 +46,9 @@ type Engine struct {
 	loopCount map[*ssa.BasicBlock]int
 	elemOf    map[*Value]elemRef
 	allocBudget int64
+	sch         *sched
+	killAck     chan struct{}
+	schedLog    []int
 	cexPrefer   *Term
 	allocSmall  int64
 	allocLarge  int
@@ -99,6 +102,8 @@ func (e *Engine) beginPath() {
 	e.pathData = map[string]interface{}{}
 	e.elemOf = map[*Value]elemRef{}
 	e.allocBudget = 0
+	e.sch = nil
+	e.schedLog = nil
 	e.allocSmall, e.allocLarge = 0, 0
 	e.vecPos = 0
 	e.depth = 0
@@ -106,7 +111,7 @@ func (e *Engine) beginPath() {
 	bigTab = map[*Value]*bigVal{}
 	freshN = 0 // deterministic names per path: same draw order => same names (declared once globally)
 }
-func (e *Engine) endPath() {}
+func (e *Engine) endPath() { e.killThreads() }
 
 func (e *Engine) pathString() string {
 	n := e.pos
@@ -721,7 +726,22 @@ func (e *Engine) step(fr *frame, in ssa.Instruction) {
 		fn, args := e.prepareCall(fr, &in.Call)
 		fr.defers = append(fr.defers, func() { e.callFn(fr, fn, args, nil) })
 	case *ssa.Go:
-		unsupported("go statement")
+		if e.sch == nil {
+			e.initSched()
+		}
+		fn, args := e.prepareCall(fr, &in.Call)
+		e.spawn(fr, fn, args)
+	case *ssa.MakeChan:
+		n := e.get(fr, in.Size).(Term)
+		if !n.IsConst() {
+			unsupported("symbolic channel capacity")
+		}
+		fr.env[in] = &ChanV{cap: n.Int(), et: in.Type().Underlying().(*types.Chan).Elem()}
+	case *ssa.Send:
+		c, _ := e.get(fr, in.Chan).(*ChanV)
+		e.chanSend(c, e.get(fr, in.X))
+	case *ssa.Select:
+		fr.env[in] = e.selectInstr(fr, in)
 	default:
 		unsupported("instr %T: %v", in, in)
 	}
@@ -842,7 +862,12 @@ func (e *Engine) unop(fr *frame, in *ssa.UnOp) Value {
 	case token.XOR:
 		return Not(x.(Term))
 	case token.ARROW:
-		unsupported("channel receive")
+		c, _ := x.(*ChanV)
+		v, ok := e.chanRecv(c)
+		if in.CommaOk {
+			return Tuple{v, Bool(ok)}
+		}
+		return v
 	}
 	unsupported("unop %v", in.Op)
 	return nil
@@ -882,6 +907,8 @@ func mapKey(v Value) interface{} {
 	case string:
 		return "s:" + x
 	case *Value:
+		return x
+	case *ChanV:
 		return x
 	case Iface:
 		if x.T == nil {
@@ -1320,6 +1347,9 @@ func (e *Engine) equal(x, y Value) Term {
 		return r
 	case *MapV:
 		yv, _ := y.(*MapV)
+		return Bool(xv == yv)
+	case *ChanV:
+		yv, _ := y.(*ChanV)
 		return Bool(xv == yv)
 	case Slice:
 		yv, _ := y.(Slice)
